@@ -58,6 +58,16 @@ func sideEffectsInAttempts(events []string) bool {
 	return false
 }
 
+// safePrune: prune() asserts its own invariants; a panic there is a finding, not a reason to stop the oracle
+func safePrune(rec rapid.VerifRecording) (out rapid.VerifRecording, panicked string) {
+	defer func() {
+		if r := recover(); r != nil {
+			out, panicked = rec, fmt.Sprint(r)
+		}
+	}()
+	return rapid.VerifPrune(rec), ""
+}
+
 type replayFailure struct {
 	Index   int      `json:"index"`
 	Program string   `json:"program"`
@@ -102,7 +112,11 @@ func cmdReplayOracle(args []string) {
 				stats["skipped_side_effects_in_attempts"]++
 				continue
 			}
-			pruned := rapid.VerifPrune(rec)
+			pruned, pp := safePrune(rec)
+			if pp != "" {
+				fails = append(fails, replayFailure{i, p.Root.coq(), s, "pruning a recording panics: " + pp, oresCoq(e), "", rec.Data, *seed, *prof})
+				continue
+			}
 			if len(pruned.Data) < len(rec.Data) {
 				stats["with_rejected_bits"]++
 			}
@@ -145,7 +159,11 @@ func cmdReplayOracle(args []string) {
 				if e.Kind != "" {
 					continue
 				}
-				pruned := rapid.VerifPrune(rec)
+				pruned, pp := safePrune(rec)
+				if pp != "" {
+					fails = append(fails, replayFailure{idx, x.name, s, "pruning a recording panics: " + pp, oresCoq(e), "", rec.Data, *seed, *prof})
+					continue
+				}
 				if len(pruned.Data) < len(rec.Data) {
 					stats["extra_with_rejected_bits"]++
 				}
